@@ -268,6 +268,56 @@ impl<'a> Gen<'a> {
         Ok(())
     }
 
+    /// a loop whose back edge is taken alternately from two different instructions: consecutive trace
+    /// entries with the same target but different sources (must not be collapsed into one count), and
+    /// consecutive repetitions of one jump when the counter parity stays (must be collapsed)
+    fn alternating_back_edges(&mut self) -> R {
+        if self.loop_depth >= 2 {
+            return self.simple();
+        }
+        let c = COUNTERS[self.loop_depth];
+        self.loop_depth += 1;
+        let n = 2 + self.rng.below(6);
+        self.a.mov(c, n)?;
+        let mut top = self.a.create_label();
+        let mut via = self.a.create_label();
+        let mut end = self.a.create_label();
+        self.a.set_label(&mut top)?;
+        self.a.nop()?;
+        self.a.dec(c)?;
+        self.a.je(end)?;
+        if self.rng.chance(2, 3) {
+            self.a.test(c, 1)?;
+        } else {
+            self.a.test(c, 2)?;
+        }
+        self.a.jne(via)?;
+        self.a.jmp(top)?;
+        self.a.set_label(&mut via)?;
+        self.a.jmp(top)?;
+        self.a.set_label(&mut end)?;
+        self.a.nop()?;
+        self.loop_depth -= 1;
+        Ok(())
+    }
+
+    /// one indirect jump executed twice in a row with different targets (the first target lies before
+    /// the jump and falls through into it again): consecutive entries with one source and two targets
+    fn redirected_indirect_jump(&mut self) -> R {
+        let r = self.reg();
+        let mut first = self.a.create_label();
+        let mut a_lbl = self.a.create_label();
+        let mut b_lbl = self.a.create_label();
+        self.a.lea(POOL[r], ptr(a_lbl))?;
+        self.a.jmp(first)?;
+        self.a.set_label(&mut a_lbl)?;
+        self.a.lea(POOL[r], ptr(b_lbl))?;
+        self.a.set_label(&mut first)?;
+        self.a.jmp(POOL[r])?;
+        self.a.set_label(&mut b_lbl)?;
+        self.a.nop()
+    }
+
     fn call_item(&mut self, from_func: Option<usize>) -> R {
         if !self.has_stack || self.n_funcs == 0 {
             return self.simple();
@@ -397,15 +447,16 @@ impl<'a> Gen<'a> {
         if self.items > 400 {
             return self.a.nop();
         }
-        let weights: [u32; 9] = match self.flavour {
-            "c18" => [10, 4, 12, 10, 14, 12, 8, 4, 4],
-            "c12" => [30, 8, 8, 6, 6, 4, 2, 6, 10],
-            _ => [30, 10, 8, 6, 6, 5, 2, 6, 4],
+        let weights: [u32; 11] = match self.flavour {
+            "c18" => [10, 4, 12, 10, 14, 12, 8, 4, 4, 6, 6],
+            "c12" => [30, 8, 8, 6, 6, 4, 2, 6, 10, 1, 1],
+            _ => [30, 10, 8, 6, 6, 5, 2, 6, 4, 1, 1],
         };
         let mut w = weights;
         if depth >= 3 {
             w[2] = 0;
             w[3] = 0;
+            w[9] = 0;
         }
         match self.rng.weighted(&w) {
             0 => self.simple(),
@@ -416,6 +467,8 @@ impl<'a> Gen<'a> {
             5 => self.jump_item(),
             6 => self.unmatched_return(),
             7 => self.push_pop(),
+            9 => self.alternating_back_edges(),
+            10 => self.redirected_indirect_jump(),
             _ => self.trap(),
         }
     }
@@ -562,6 +615,8 @@ pub fn generate(prop: &str, thorough: bool, seed: u64, idx: u64) -> Sc {
         traps.push("Syscall");
     }
     let main_items = if thorough { 4 + cfg.below(24) } else { 3 + cfg.below(14) } as u32;
+    // rarely: nothing but a deep, fully unwound recursion (thousands of live frames)
+    let deep: Option<u64> = if flavour == "c18" && cfg.chance(1, 300) { Some(*cfg.pick(&[300u64, 1200, 4200])) } else { None };
 
     // ---- program ----
     let mut prng = rng.fork("program");
@@ -596,7 +651,23 @@ pub fn generate(prop: &str, thorough: bool, seed: u64, idx: u64) -> Sc {
         }
         g.a.set_label(&mut main_l)?;
         g.a.nop()?;
-        for _ in 0..main_items {
+        if let Some(n) = deep {
+            let mut f = g.a.create_label();
+            let mut out = g.a.create_label();
+            let mut done = g.a.create_label();
+            g.a.mov(r12, n)?;
+            g.a.call(f)?;
+            g.a.jmp(done)?;
+            g.a.set_label(&mut f)?;
+            g.a.dec(r12)?;
+            g.a.je(out)?;
+            g.a.call(f)?;
+            g.a.set_label(&mut out)?;
+            g.a.ret()?;
+            g.a.set_label(&mut done)?;
+            g.a.nop()?;
+        }
+        for _ in 0..(if deep.is_some() { 1 } else { main_items }) {
             g.item(0, None)?;
         }
         match ending {
@@ -730,7 +801,13 @@ pub fn generate(prop: &str, thorough: bool, seed: u64, idx: u64) -> Sc {
             let at = sr.below(approx_len);
             match sr.below(6) {
                 0 | 1 => actions.push(Action { at, kind: "register".into(), hook: Some(gen_hook(&mut sr, flavour, &present, &traps, stopper)), area: 0, prot: 0 }),
-                2 => actions.push(Action { at, kind: "handle_syscalls".into(), hook: None, area: 0, prot: 0 }),
+                2 => {
+                    if sr.chance(1, 2) {
+                        actions.push(Action { at, kind: "handle_syscalls".into(), hook: None, area: 0, prot: 0 })
+                    } else {
+                        actions.push(Action { at, kind: "resize_code".into(), hook: None, area: *sr.pick(&[0x10u64, 0x40, 0x100]), prot: 0 })
+                    }
+                }
                 3 => actions.push(Action { at, kind: "render".into(), hook: None, area: 0, prot: 0 }),
                 4 if has_stack => {
                     // the stack turns read-only (or inaccessible) mid-run: later PUSH / CALL fail at their store
@@ -810,7 +887,7 @@ pub fn generate(prop: &str, thorough: bool, seed: u64, idx: u64) -> Sc {
         entry,
         listing: listing(&code, code_start),
         code: to_hex(&code),
-        stack_len: if has_stack { Some(stack_len) } else { None },
+        stack_len: if let Some(n) = deep { Some(8 * n + 512) } else if has_stack { Some(stack_len) } else { None },
         data,
         scratch: if sr.chance(4, 5) { SCRATCH_BASE } else { 0 },
         regs,
@@ -823,7 +900,7 @@ pub fn generate(prop: &str, thorough: bool, seed: u64, idx: u64) -> Sc {
         cuts,
         rng_a: rng.fork("rng_a").next(),
         rng_b: rng.fork("rng_b").next(),
-        max_steps: if thorough { 6000 } else { 3000 },
+        max_steps: if let Some(n) = deep { 6 * n + 400 } else if thorough { 6000 } else { 3000 },
         err_budget: 1 + sr.below(4) as u32,
         builtin_exit,
         ending: ending.to_string(),
